@@ -178,4 +178,42 @@ theorem forRange_findRet {α ρ σ : Type} (p : α → Bool) (f : α → ρ) (bo
     · simp [forRange, h, hp]
     · simp [forRange, h, hp, ih]
 
+/-- what one pass through a loop body must establish: the post-condition `R` when it returns from the function, the
+invariant `I` when it goes on or breaks -/
+def Ctl.post {ρ σ : Type} (I : σ → Prop) (R : ρ → Prop) : Ctl ρ σ → Prop
+  | .ret r => R r
+  | .brk s => I s
+  | .next s => I s
+
+/-- Hoare-style rule for `forRange`: an invariant of the loop-carried state that every pass keeps, and a
+post-condition that every `return` from inside the loop establishes -/
+theorem forRange_inv {α ρ σ : Type} (body : α → σ → Ctl ρ σ) (I : σ → Prop) (R : ρ → Prop) (xs : List α)
+    (hstep : ∀ x ∈ xs, ∀ s, I s → (body x s).post I R) :
+    ∀ s, I s → match forRange xs s body with
+      | .ret r => R r | .done s' => I s' := by
+  induction xs with
+  | nil => intro s hs; simpa [forRange] using hs
+  | cons x rest ih =>
+    intro s hs
+    have h1 := hstep x (List.mem_cons_self ..) s hs
+    simp only [forRange]
+    cases hb : body x s with
+    | ret r => rw [hb] at h1; exact h1
+    | brk s' => rw [hb] at h1; exact h1
+    | next s' =>
+      rw [hb] at h1
+      exact ih (fun y hy => hstep y (List.mem_cons_of_mem _ hy)) s' h1
+
+theorem forRange_ret {α ρ σ : Type} {body : α → σ → Ctl ρ σ} {xs : List α} {s : σ} {r : ρ}
+    (heq : forRange xs s body = .ret r) (I : σ → Prop) (R : ρ → Prop) (hI : I s)
+    (hstep : ∀ x ∈ xs, ∀ s, I s → (body x s).post I R) : R r := by
+  have := forRange_inv body I R xs hstep s hI
+  rw [heq] at this; exact this
+
+theorem forRange_done {α ρ σ : Type} {body : α → σ → Ctl ρ σ} {xs : List α} {s s' : σ}
+    (heq : forRange (ρ := ρ) xs s body = .done s') (I : σ → Prop) (R : ρ → Prop) (hI : I s)
+    (hstep : ∀ x ∈ xs, ∀ s, I s → (body x s).post I R) : I s' := by
+  have := forRange_inv body I R xs hstep s hI
+  rw [heq] at this; exact this
+
 end KM.Go
